@@ -39,7 +39,7 @@ fn tuple_kinds() -> Vec<(&'static str, Kind)> {
 // "split off" once more (`x_86__64` or `x_86_64`): such a variant is constructed and asked every OTHER variant's predicate and
 // accessors (all false / None), and the derive must compile, but its own methods are not called by name.
 // Identifiers that begin with the word `Is` still get the `is_` prefix (`is_is_empty`).
-const IDENT_POOL: [&str; 19] = ["Hello2You", "HTTPServer", "A1", "Utf8To16", "X_y", "Ab2c3", "V1", "Café2", "Ünï3x", "r#try", "RParen", "R_x", "x86", "arm64v", "_res", "X86_64", "V_2", "IsEmpty", "Is"];
+const IDENT_POOL: [&str; 22] = ["Hello2You", "HTTPServer", "A1", "Utf8To16", "X_y", "Ab2c3", "V1", "Café2", "Ünï3x", "r#try", "RParen", "R_x", "x86", "arm64v", "_res", "X86_64", "V_2", "IsEmpty", "Is", "Level9", "V91", "Span90"];
 
 pub fn name_unsettled(ident: &str) -> bool {
     let cs: Vec<char> = ident.chars().collect();
@@ -136,6 +136,13 @@ pub fn programs(tier: Tier) -> ProgramSet {
                 out.push(Program { idx: 0, label: e.label, k: e.k, spec: e.spec, aux: json!(null), source });
             }
         }
+    }
+    // a user macro called `matches` is in (textual) scope where the enum is declared: generated code must not expand it
+    {
+        let mut spec = EnumSpec::base(2);
+        spec.variants[1].kind = Kind::Tuple(vec![FieldTy::U8]);
+        let source = format!("#[allow(unused_macros)]\nmacro_rules! matches {{ ($($t:tt)*) => {{ false }}; }}\n{}", render(&spec));
+        out.push(Program { idx: 0, label: "B2 + a local macro_rules! matches is in scope where the enum is declared".into(), k: 1, spec, aux: json!(null), source });
     }
     // SCALE: 26 variants (every predicate is asked on every variant: 26 x 26), wide tuple / named variants
     {
